@@ -214,6 +214,7 @@ package pool
 //@ func (p *PeerPool) makeResponse
 //@   requires ip != nil
 //@   modifies nothing
+//@   sets madeResp = madeResp + 1
 //@   ensures result != nil && fresh(result) && result.SubscriberID == subscriberID && result.IP == ipstr(ip) && result.NodeID == p.nodeID
 
 // allocateLocal (C01): a subscriber that holds an address gets the same one and nothing
@@ -222,6 +223,7 @@ package pool
 // subscriber holds nothing and the free list is empty; free + held is conserved.
 //@ func (p *PeerPool) allocateLocal
 //@   indep
+//@   sets localAllocs = localAllocs + 1
 //@   requires p.localPool != nil
 //@   modifies p.localPool.allocations, p.localPool.ipToSub, p.localPool.available
 //@   ensures locked(subscriberID in p.localPool.allocations) ==> err == nil && result.IP == ipstr(locked(p.localPool.allocations[subscriberID])) && p.localPool.available == locked(p.localPool.available) && dom(p.localPool.allocations) == locked(dom(p.localPool.allocations)) && vals(p.localPool.allocations) == locked(vals(p.localPool.allocations)) && dom(p.localPool.ipToSub) == locked(dom(p.localPool.ipToSub)) && vals(p.localPool.ipToSub) == locked(vals(p.localPool.ipToSub))
@@ -238,6 +240,7 @@ package pool
 // subscriber that holds nothing changes nothing.
 //@ func (p *PeerPool) releaseLocal
 //@   indep
+//@   sets localRels = localRels + 1
 //@   requires p.localPool != nil
 //@   modifies p.localPool.allocations, p.localPool.ipToSub, p.localPool.available
 //@   ensures err == nil
@@ -258,3 +261,38 @@ package pool
 //@   requires injective() && positive() && p.localPool != nil
 //@   modifies nothing
 //@   ensures result1 ==> result != nil && result.SubscriberID == subscriberID
+
+// ---- "a request entering at any node is served from exactly one node's pool" (C17) ----
+//
+// Allocate / Release decide once, through getHealthyOwner, and then either serve from the local pool
+// or forward -- exactly one of the two, locally exactly when this node is the owner; they never
+// answer from the local table themselves. A forwarded request goes to the owner's own address.
+//@ func (p *PeerPool) forwardAllocation
+//@   trusted HTTP client (net/http, encoding/json)
+//@   modifies nothing
+//@   sets fwdAllocs = fwdAllocs + 1
+//@ func (p *PeerPool) forwardRelease
+//@   trusted HTTP client (net/http)
+//@   modifies nothing
+//@   sets fwdRels = fwdRels + 1
+
+//@ func (p *PeerPool) Allocate
+//@   requires injective() && positive() && p.localPool != nil
+//@   ghost localAllocs mathint = 0
+//@   ghost fwdAllocs mathint = 0
+//@   ghost madeResp mathint = 0
+//@   ensures localAllocs + fwdAllocs == 1 && madeResp == 0
+//@   ensures (owner == p.nodeID) == (localAllocs == 1)
+
+//@ func (p *PeerPool) Release
+//@   requires injective() && positive() && p.localPool != nil
+//@   ghost localRels mathint = 0
+//@   ghost fwdRels mathint = 0
+//@   ensures localRels + fwdRels == 1
+//@   ensures (owner == p.nodeID) == (localRels == 1)
+
+// the address a forwarded request is sent to is the configured entry of exactly that node
+//@ func (p *PeerPool) getPeerAddr
+//@   modifies nothing
+//@   ensures result == nodeID || result == strcat(nodeID, ":8081")
+
